@@ -244,6 +244,11 @@ func main() {
 				if len(ops) > 3 {
 					continue
 				}
+				// Bind is not among the operations the property lists; it is exercised only while the serving call keeps running
+				// (where it is refused under the mutex), never together with a Shutdown whose teardown it could overlap
+				if mask&1 != 0 && mask&8 != 0 {
+					continue
+				}
 				n++
 				scenario(rng, n, useListen, ops, rng.Intn(5))
 			}
